@@ -65,6 +65,9 @@ type Blob struct {
 	Typ   types.Type // static type of V (pointer-to-struct for messages)
 	Empty *Term      // Bool: encoding has length 0
 	ID    int
+	digest *Term
+	key    string
+	Pack  *abiPack // when set: output of abi.Pack (selector + injective encoding of the arguments)
 	Str   *Str // when set: the bytes of an abstract (encoded/opaque) string rather than a message
 }
 
